@@ -29,7 +29,7 @@ CLAIMED = {
          'contract-based deductive verification (Verus) with loop invariants on the two clone loops', '7 C13'),
  'C14': ('proof', 'Verus contracts on every conversion in entity.rs for all 2^32 keys and all generations (bit-vector lemmas for key packing), PartialEq specs, injectivity of the 64-bit word fed to the hasher. The generated archetype/world layer (the code ecs_world! emits for a two-archetype schema, obtained by evaluating the generator functions of macros/src/generate/world.rs as text: R-quote) and the default methods of traits Archetype/World are verified too: every generated From/TryFrom impl of SelectArchetype, SelectEntity, SelectEntityDirect and the hidden select-total enum is checked against a ghost spec (Ok(variant(wrap(v))) exactly when the archetype id matches, else InvalidEntityType).',
          'contract-based deductive verification (Verus) + bit_vector lemmas', '7 C14'),
- 'C15': ('proof', 'advance_attribute_id (real body, syn types stubbed) implements exactly the enum-discriminant rule rule_next_id and rejects an id iff it is already assigned or would count past 255; lemma_rule_fold: folding that step over ANY sequence of items yields pairwise distinct ids obeying the rule, or the first error. Partial claim: the loop of DataWorld::new, the emission of the constants and "fails to compile" are not covered (see level_note).',
+ 'C15': ('proof', 'advance_attribute_id (real body, syn types stubbed) implements exactly the enum-discriminant rule rule_next_id and rejects an id iff it is already assigned or would count past 255; lemma_rule_fold: folding that step over ANY sequence of items yields pairwise distinct ids obeying the rule, or the first error. Partial claim: the loop of DataWorld::new, the emission of the constants and "fails to compile" are not covered (see level_note). Emission: for the instantiated schemas (ids deliberately not ascending, with gaps) the generated ARCHETYPE_ID / COMPONENT_ID / NUM_ARCHETYPES constants are checked to be the ids of the declaration and pairwise distinct (world unit, R-quote).',
          'contract-based deductive verification (Verus) of the id-assignment function + fold lemma', '7 C15'),
  'C16': ('proof', 'PARTIAL, relative to the evaluated cfg table (predicate text -> bool) the macro chain hands to the parsers: Verus proves on the real bodies that (1) collect_all_cfg_predicates / get_cfg_predicates collect exactly the predicates decorating the declaration / the query, pairwise distinct (so every decorating predicate gets a table entry); (2) evaluate_cfgs / is_cfg_enabled report an item enabled iff EVERY one of its predicates is true in the table (an item without attributes is enabled); (3) DataWorld::new produces a result that depends on the declaration only through its enabled items (a disabled archetype or component consumes no id and is not in the world data: lemma_c16_data; with no false predicate the selection is the declaration itself: lemma_c16_all_enabled), so everything generated from the world data (ids, storage, Select tables) is as if the disabled items had not been written and the true attributes were absent; (4) bind_query_params: a cfg-disabled parameter never constrains which archetypes match (lemma_c16_binds) and a cfg-decorated OneOf is rejected. OUTSIDE: the evaluation of the predicates by rustc through the generated cfg-probing macro chain (macros/src/generate/cfg.rs) and the order in which it threads the booleans, the zip loop of ParseCfgDecorated::parse (syn parser code), the #[cfg] attributes re-emitted on closure parameters.',
          'contract-based deductive verification (Verus) of the cfg collection / evaluation / selection functions + lemmas over their contracts (partial: relative to the evaluated table)', '7 C16'),
